@@ -90,14 +90,17 @@ class NewtonRaphsonGeometry(StandardGeometry, ABC):
             if np.max(np.abs(dz)) < self.tol:
                 break
         position = np.column_stack((rays.x, rays.y, rays.z))
-        t = np.linalg.norm(intersections - position, axis=1)
+        # signed distance along the ray
+        t = np.sum((intersections - position) * ray_directions, axis=1)
 
         # rays for which the iteration did not converge have no valid
-        # intersection point
+        # intersection point, nor have rays whose intersection lies behind
+        # them
         residual = intersections[:, 2] - self.sag(intersections[:, 0],
                                                   intersections[:, 1])
         converged = np.abs(residual) < self.tol
-        return np.where(converged, t, np.nan)
+        with np.errstate(invalid='ignore'):
+            return np.where(converged & (t > -1e-10), t, np.nan)
 
     def _intersection_sphere(self, rays):
         """
@@ -129,9 +132,9 @@ class NewtonRaphsonGeometry(StandardGeometry, ABC):
             t1 = (-b + np.sqrt(d)) / (2 * a)
             t2 = (-b - np.sqrt(d)) / (2 * a)
 
-        # intersections "behind" ray, set to inf to ignore
-        t1[t1 < 0] = np.inf
-        t2[t2 < 0] = np.inf
+        # the base sphere only supplies the starting point of the iteration;
+        # it may lie behind the ray although the surface itself lies ahead,
+        # so its intersections are not filtered by sign here
 
         # find intersection points in z
         z1 = rays.z + t1 * rays.N
